@@ -59,6 +59,7 @@ def check(ck):
               'parent as its outer link',
               c09.r09_7)
     r06_12(ck)
+    r06_13(ck)
     from . import c04
     from ..engine_model import RunFor
     rf = RunFor(ck)
@@ -68,6 +69,39 @@ def check(ck):
               're-create of the subtree (reads would then come from the '
               'detached nodes while writes go, by path, to the new ones)',
               lambda c: c04.r04_3(c, rf))
+
+
+def r06_13(ck, rule='R06.13'):
+    ck.rule(rule, 'inverse_topology honours its multi_updates flag: the '
+            'collision-preserving combinator (deep_merge_multi_update, '
+            'which wraps colliding values under _multi_update) is used '
+            'only under `multi_updates`; with the flag off - the mode in '
+            'which Composite.initial_state()/default_state() map initial '
+            'values - colliding values overwrite each other and no '
+            '_multi_update wrapper ends up in a state')
+    f = ck.fn('inverse_topology', 'library.topology')
+    cfg = cfg_of(f.node)
+    ps = A.params_of(f.node)
+    flag = ps[4] if len(ps) > 4 else 'multi_updates'
+    n = 0
+    for c in ast.walk(f.node):
+        if not (isinstance(c, ast.Call) and A.call_name(c) ==
+                'deep_merge_multi_update'):
+            continue
+        n += 1
+        st = c
+        while st is not None and not isinstance(st, ast.stmt):
+            st = getattr(st, '_parent', None)
+        g = cfg.guards(cfg.node(st)) if st is not None and \
+            cfg.node(st) is not None else set()
+        ck.require(('truthy', flag) in g, rule, f, c,
+                   'the multi-update combinator sits under the flag',
+                   'inverse_topology wraps colliding values under '
+                   '_multi_update whatever `%s` says (guards: %s): the '
+                   'initial state of a composite whose ports share a '
+                   'variable would contain a _multi_update wrapper instead '
+                   'of a value' % (flag, sorted(g)), c)
+    ck.floor(rule, n, 2, 'uses of deep_merge_multi_update')
 
 
 def r06_12(ck, rule='R06.12'):
